@@ -10,6 +10,8 @@ import re
 from dataclasses import dataclass, field
 from typing import Optional
 
+from vp.numctx import CTX
+
 
 class Unsupported(Exception):
     """The text uses a construct outside the reference subset: the case is not judged."""
@@ -65,7 +67,7 @@ def strip_comments(s: str) -> str:
 # =========================================================================================== expressions
 TOKEN_RE = re.compile(
     r"""\s*(?:
-      (?P<num>(?:\d+\.?\d*|\.\d+)(?:[EeDd][+-]?\d+)?)
+      (?P<num>(?:\d+(?:\.(?!(?:AND|OR|NOT|EQ|NE|LT|LE|GT|GE|EQN|NEN)\.)\d*)?|\.\d+)(?:[EeDd][+-]?\d+)?)
     | (?P<dotop>\.(?:LT|LE|GT|GE|EQ|NE|NEN|EQN|AND|OR|NOT|TRUE|FALSE)\.)
     | (?P<name>[A-Za-z_][A-Za-z0-9_]*)
     | (?P<op>\*\*|==|/=|<=|>=|<|>|[-+*/(),=])
@@ -254,90 +256,99 @@ def _fn(name, a):
         n = "LOG10"
     if n in ("DSQRT",):
         n = "SQRT"
-    if n in ("DSIN", "DCOS", "DTAN", "DASIN", "DACOS", "DATAN", "DABS"):
+    if n in ("DSIN", "DCOS", "DTAN", "DASIN", "DACOS", "DATAN", "DABS", "DINT", "DMOD"):
+        n = n[1:]
+    if n in ("PTAN", "PASIN", "PACOS", "PATAN"):
         n = n[1:]
     x = a[0]
+    F = CTX.f
     try:
         if n == "EXP":
-            return math.exp(x)
+            return F("exp", x)
         if n == "PEXP":
-            return math.exp(min(x, 100.0))
+            return F("exp", x if x < 100 else CTX.num(100.0) * 0 + 100)
         if n == "LOG":
             if x <= 0:
                 raise RefError("log<=0")
-            return math.log(x)
+            return F("log", x)
         if n == "PLOG":
-            return math.log(SMALLZ) if x < SMALLZ else math.log(x)
+            return F("log", CTX.num(SMALLZ) * 0 + SMALLZ) if x < SMALLZ else F("log", x)
         if n == "LOG10":
             if x <= 0:
                 raise RefError("log10<=0")
-            return math.log10(x)
+            return F("log", x) / F("log", CTX.rat(10, 1) * 0 + 10)
         if n == "PLOG10":
-            return math.log10(SMALLZ) if x < SMALLZ else math.log10(x)
+            y = (CTX.num(SMALLZ) * 0 + SMALLZ) if x < SMALLZ else x
+            return F("log", y) / F("log", CTX.rat(10, 1) * 0 + 10)
         if n == "SQRT":
             if x < 0:
                 raise RefError("sqrt<0")
-            return math.sqrt(x)
+            return F("sqrt", x)
         if n == "PSQRT":
-            return 0.0 if x < 0 else math.sqrt(x)
-        if n == "SIN":
-            return math.sin(x)
-        if n == "COS":
-            return math.cos(x)
-        if n == "TAN":
-            return math.tan(x)
-        if n == "ASIN":
-            return math.asin(x)
-        if n == "ACOS":
-            return math.acos(x)
-        if n == "ATAN":
-            return math.atan(x)
+            return x * 0 if x < 0 else F("sqrt", x)
+        if n in ("SIN", "COS", "TAN", "ASIN", "ACOS", "ATAN"):
+            if n in ("ASIN", "ACOS") and abs(x) > 1:
+                raise RefError("asin/acos domain")
+            return F(n.lower(), x)
         if n == "ABS":
             return abs(x)
         if n == "INT":
-            return float(math.trunc(x))
+            return CTX.trunc(x)
         if n == "MOD":
-            return math.fmod(x, a[1])
+            if a[1] == 0:
+                raise RefError("mod0")
+            return CTX.fmod(x, a[1])
         if n == "GAMLN":
-            return math.lgamma(x)
+            if x <= 0:
+                raise RefError("gamln<=0")
+            return F("lgamma", x)
         if n == "PHI":
-            return 0.5 * (1 + math.erf(x / math.sqrt(2)))
+            return (1 + F("erf", x / F("sqrt", x * 0 + 2))) / 2
         if n == "PDZ":
-            return 1 / SMALLZ if abs(x) < SMALLZ else 1 / x
+            return 1 / (x * 0 + SMALLZ) if abs(x) < SMALLZ else 1 / x
         if n == "PZR":
-            return SMALLZ if abs(x) < SMALLZ else x
+            return x * 0 + SMALLZ if abs(x) < SMALLZ else x
         if n == "PNP":
-            return SMALLZ if x < SMALLZ else x
+            return x * 0 + SMALLZ if x < SMALLZ else x
         if n == "PHE":
-            return 100.0 if x > 100 else x
+            return x * 0 + 100 if x > 100 else x
         if n == "PNG":
-            return 0.0 if x < 0 else x
+            return x * 0 if x < 0 else x
         if n == "MIN":
             return min(a)
         if n == "MAX":
             return max(a)
-    except (ValueError, OverflowError) as e:
+    except (ValueError, OverflowError, ZeroDivisionError) as e:
         raise RefError(str(e))
     raise Unsupported(f"function {name}")
+
+
+def _exponent(e, st):
+    """Exponents that are numeric literals are taken exactly (never perturbed by the conditioning probe)."""
+    if e[0] == "num":
+        return CTX.val(e[1])
+    if e[0] == "neg" and e[1][0] == "num":
+        return -CTX.val(e[1][1])
+    return eval_expr(e, st)
 
 
 def eval_expr(e, st):
     k = e[0]
     if k == "num":
-        return e[1]
+        return CTX.num(e[1])
     if k == "bool":
         return e[1]
     if k == "var":
         try:
-            return st[e[1]]
+            return CTX.val(st[e[1]])
         except KeyError:
             raise RefUnbound(e[1])
     if k == "neg":
         return -eval_expr(e[1], st)
     if k == "bin":
-        a = eval_expr(e[2], st)
-        b = eval_expr(e[3], st)
         op = e[1]
+        a = eval_expr(e[2], st)
+        b = _exponent(e[3], st) if op == "**" else eval_expr(e[3], st)
         try:
             if op == "+":
                 return a + b
@@ -354,8 +365,8 @@ def eval_expr(e, st):
                     raise RefError("0**neg")
                 if a < 0 and b != int(b):
                     raise RefError("neg**frac")
-                return a**b
-        except OverflowError:
+                return CTX.pow(a, b)
+        except (OverflowError, ZeroDivisionError):
             raise RefError("overflow")
     if k == "rel":
         a = eval_expr(e[2], st)
@@ -370,12 +381,12 @@ def eval_expr(e, st):
     if k == "call":
         name = e[1]
         if name in INDEXED:
-            idx = [int(eval_expr(a, st)) for a in e[2]]
+            idx = [int(a[1]) if a[0] == "num" else int(eval_expr(a, st)) for a in e[2]]
             key = f"{name}({','.join(str(i) for i in idx)})"
             if name == "ERR":
                 key = f"EPS({idx[0]})"
             try:
-                return st[key]
+                return CTX.val(st[key])
             except KeyError:
                 raise RefUnbound(key)
         return _fn(name, [eval_expr(a, st) for a in e[2]])
@@ -516,7 +527,7 @@ def exec_code(stmts, st):
         if isinstance(s, Assign):
             v = eval_expr(s.expr, st)
             if isinstance(v, bool):
-                v = 1.0 if v else 0.0
+                v = CTX.one() if v else CTX.one() * 0
             st[s.target] = v
         else:
             # conditions are evaluated in order at the time the block is entered; first true branch runs
@@ -1039,6 +1050,9 @@ def default_dose_comp(rm: RefModel) -> int:
         return 1
     for i, (n, o) in enumerate(rm.comps, 1):
         if "DEFDOSE" in o:
+            return i
+    for i, (n, o) in enumerate(rm.comps, 1):
+        if n == "DEPOT" and "NODOSE" not in o:
             return i
     for i, (n, o) in enumerate(rm.comps, 1):
         if "NODOSE" not in o:
